@@ -40,6 +40,9 @@ META = {
     "C05": {"technique": "property-based fault injection: generated exit paths (cancel triggers, launch/probe failures) + resource accounting oracle",
             "level_text": "Generated workflows are driven down each exit path with injected faults and cancellation instants; the scripted deployer's deploy/close counters, the plugin's in-progress counter and a goroutine census decide whether anything was left behind.",
             "level_note": TB + "; the launch-failure path needs the harness step kind vstartfail because the built-in providers cannot fail in Start after Prepare"},
+    "C06": {"technique": "property-based fault injection: cancellation triggers on generated life-cycle instants + time bound / signal / genuineness oracle",
+            "level_text": "Generated workflows are cancelled at generated instants of each step's life; the oracle uses the statement's own time bound, the plugin log (cancel signal or closed connection for every never-ending execution, all executions ended) and C05's accounting.",
+            "level_note": TB + "; the time bound is the one the property states (it is the only clock in the oracle)"},
 }
 
 NOT_APPLICABLE = []
